@@ -1,6 +1,6 @@
 (** C02 — bulk array operations equal their element-by-element, row-major definition. *)
 From Coq Require Import ZArith List Lia.
-From OW Require Import Arrays.WrapperViews Arrays.IntOps Arrays.View Arrays.Ops Arrays.IndexProofs Arrays.AffineProofs
+From OW Require Import Arrays.ArrayOpsProofs Arrays.WrapperViews Arrays.IntOps Arrays.View Arrays.Ops Arrays.IndexProofs Arrays.AffineProofs
   Arrays.ContigProofs Arrays.HelperProofs Arrays.MemProofs Arrays.ApplyProofs Arrays.ReshapeProofs
   Arrays.HistoryProofs Arrays.CopyProofs Arrays.BulkProofs.
 Import ListNotations.
@@ -160,10 +160,40 @@ Theorem C02_wrapper_output_row : forall (V : Type) (h : @heap V) c g N K T i k,
 Proof. exact (@wrapper_output_row). Qed.
 Print Assumptions C02_slice_reshape_denotes.
 
-(** NOT proved (C02_arrayops_partial): ApplyFunc1 / Scale / AddTo fast path = index loop.  The
-    model contains both paths literally; their agreement with the row-major abstract
-    specification is established only by the correspondence run (tools/arrays_gen.py is that
-    specification). *)
+(** arrayops.go (ApplyFunc1 / Scale / AddTo = [elementwise2 f]): whichever path is taken
+    (flat-slice fast path when both views are contiguous, Get/Set index loop otherwise), every
+    destination element becomes f(old destination element, old source element), the source is
+    unchanged and no other cell of an existing buffer changes -- for well-formed views of equal
+    shape that do not overlap, Go- or C-backed *)
+Theorem C02_arrayops_elementwise : forall (V : Type) (f : V -> V -> V) (h : @heap V) dst src rd1 v1 rd2 v2,
+  wf_arr h dst rd1 v1 -> steps_pos v1 -> wf_arr h src rd2 v2 -> steps_pos v2 ->
+  adims v1 = adims v2 -> adims v1 <> [] ->
+  (forall i j, valid_idx (adims v1) i -> valid_idx (adims v1) j -> acell dst rd1 v1 i <> acell src rd2 v2 j) ->
+  exists hf,
+    elementwise2 f h dst src = Some hf /\
+    (forall i, valid_idx (adims v1) i -> exists d s,
+        get h dst i = Some d /\ get h src i = Some s /\ get hf dst i = Some (f d s)) /\
+    (forall i, valid_idx (adims v1) i -> get hf src i = get h src i) /\
+    (forall b a, (b < length h)%nat -> (forall i, valid_idx (adims v1) i -> (b, a) <> acell dst rd1 v1 i) ->
+                 hread hf b a = hread h b a).
+Proof. exact (@elementwise2_spec). Qed.
+(** ... and the fast path and the index loop leave the same contents in every existing buffer *)
+Theorem C02_arrayops_fast_eq_slow : forall (V : Type) (f : V -> V -> V) (h : @heap V) dst src rd1 v1 rd2 v2,
+  wf_arr h dst rd1 v1 -> steps_pos v1 -> wf_arr h src rd2 v2 -> steps_pos v2 ->
+  adims v1 = adims v2 -> adims v1 <> [] ->
+  contiguous (cm dst) = Some true -> contiguous (cm src) = Some true ->
+  (forall i j, valid_idx (adims v1) i -> valid_idx (adims v1) j -> acell dst rd1 v1 i <> acell src rd2 v2 j) ->
+  exists hf hs,
+    elementwise2 f h dst src = Some hf /\
+    idx_loop2 f h dst src (shape dst) (new_index (cm dst) 0) (Z.to_nat (product (shape dst))) = Some hs /\
+    agree (length h) hf hs.
+Proof. exact (@elementwise2_fast_eq_slow). Qed.
+Print Assumptions C02_arrayops_elementwise.
+Print Assumptions C02_arrayops_fast_eq_slow.
+
+(** Limits: the bulk-operation theorems above assume source and destination do not overlap
+    (overlapping copies are the recorded finding `overlapping-copy`); for overlapping views the
+    model is still executable and is compared with the code by the correspondence run. *)
 Example C02_nonvacuous :
   contiguous (conc [3;4] (mkAview [1;0] [1;1] [2;4])) = Some true /\
   contiguous (conc [3;4] (mkAview [0;1] [1;1] [3;2])) = Some false /\
